@@ -37,7 +37,7 @@ func init() {
 				return 1_500_000
 			}, Run: c06Arc,
 				Min: map[string]int64{"arcs": 100000, "relative": 20000, "absolute": 20000, "scaled_up_radii": 10000, "large_arc": 20000, "sweep_positive": 20000, "sweep_negative": 20000,
-					"zero_radius": 5000, "exact_semicircles": 2000, "exact_quarter_circles": 2000, "rotation_whole_quarter_turns": 50000, "rotation_of_many_turns": 50000, "reset_before_setrasterizer": 50000, "rectangle_changed_after_reset": 50000, "renderer_used_for_an_earlier_graphic": 50000, "lattice_mode": 20000, "targets_of_thousands_of_pixels": 30000, "lattice_endpoint_equals_pen_pixels": 5000, "cubics_1": 1000, "cubics_2": 1000, "cubics_3": 1000, "cubics_4": 1000, "negative_radius": 5000, "through_destination_logger": 50000, "last_arc_of_an_encoded_run": 100000, "encoded_run_position_above_16": 30000, "arc_directly_after_other_arcs": 100000, "degenerate_arc_before_the_arc": 50000}},
+					"zero_radius": 5000, "exact_semicircles": 2000, "exact_quarter_circles": 2000, "rotation_whole_quarter_turns": 50000, "rotation_of_many_turns": 50000, "reset_before_setrasterizer": 50000, "rectangle_changed_after_reset": 50000, "renderer_used_for_an_earlier_graphic": 50000, "lattice_mode": 20000, "targets_of_thousands_of_pixels": 30000, "lattice_endpoint_equals_pen_pixels": 5000, "cubics_1": 1000, "cubics_2": 1000, "cubics_3": 1000, "cubics_4": 1000, "negative_radius": 5000, "through_destination_logger": 50000, "last_arc_of_an_encoded_run": 100000, "encoded_run_position_above_16": 30000, "arc_directly_after_other_arcs": 100000, "same_ellipse_with_too_small_radii_earlier_in_the_path": 50000, "degenerate_arc_before_the_arc": 50000}},
 		},
 	})
 }
@@ -248,6 +248,15 @@ func c06Arc(c *run.Ctx, idx uint64) {
 			}
 			pre = append(pre, d)
 		}
+	}
+	if mode != viaBytes && r.Chance(1, 8) {
+		// Earlier in the same path: an arc on the very same ellipse (same radii and
+		// rotation) whose radii are far too small for its chord, then a line back
+		// to the start. Each arc's radii are scaled up for that arc only.
+		far := q(5 * (float32(math.Abs(float64(rx))) + float32(math.Abs(float64(ry))) + 1))
+		pre = append(pre, rec.Op{K: rec.KRelArcTo, LargeArc: r.Bool(), Sweep: r.Bool(), F: [6]float32{rx, ry, rot, far, q(float32(r.Uniform(-1, 1)))}},
+			rec.Op{K: rec.KAbsLineTo, F: [6]float32{x0, y0}})
+		c.Count("same_ellipse_with_too_small_radii_earlier_in_the_path", 1)
 	}
 	var dst ivg.Destination = &z
 	if mode == logger {
